@@ -52,6 +52,9 @@ def _guard(ctx, rule, f, term_ext, term_non, sep, what):
 
 
 def run(ctx, model):
+    from . import signatures as _sig
+    _n_sig = _sig.check(ctx, model, "R-SIGNATURE", lambda k: any(x in k for x in (':IPv4.', ':IPv6.')))
+    ctx.floor("R-SIGNATURE", _n_sig, 1, "public entry points")
     ctx.explanation = (
         "The constructors IPv4.__init__ and IPv6.__init__ are walked by the abstract interpreter in meta mode (E6): "
         "loops and conditional expressions over constants are unrolled, every pregex.core call is replaced by its "
